@@ -247,6 +247,129 @@ where
     })
 }
 
+// ---------------------------------------------------------------------------------------------
+// routines that convert a machine-size count into the element type (`T::from_usize`), at small
+// wrapper element types with counts below, at and above the type's maximum
+// ---------------------------------------------------------------------------------------------
+
+/// Runs `f`; a panic with the documented message of the covariance routines ("… cannot represent
+/// this many samples") is reported as such, any other panic by its kind.
+fn catch_samples<T>(f: impl FnOnce() -> T) -> Result<T, String> {
+    match std::panic::catch_unwind(std::panic::AssertUnwindSafe(f)) {
+        Ok(v) => Ok(v),
+        Err(payload) => {
+            let msg = if let Some(s) = payload.downcast_ref::<&str>() {
+                (*s).to_string()
+            } else if let Some(s) = payload.downcast_ref::<String>() {
+                s.clone()
+            } else {
+                String::new()
+            };
+            if msg.contains("cannot represent this many samples") {
+                Err("panic(samples-not-representable)".into())
+            } else {
+                Err(panic_str(classify(&msg)))
+            }
+        }
+    }
+}
+
+trait SmallWrap: Numeric + Copy + 'static {
+    fn parse(s: &str) -> Option<Self>;
+    fn show(&self) -> String;
+}
+macro_rules! small_wrap {
+    ($($T:ty),*) => {$(
+        impl SmallWrap for std::num::Wrapping<$T> {
+            fn parse(s: &str) -> Option<Self> { s.parse::<$T>().ok().map(std::num::Wrapping) }
+            fn show(&self) -> String { self.0.to_string() }
+        }
+    )*};
+}
+small_wrap!(i8, u8, i16);
+
+fn run_counting<E: SmallWrap>(routine: &str, arg: &str) -> Option<String>
+where
+    for<'a> &'a E: NumericRef<E>,
+{
+    let (dims, vals) = arg.split_once(':')?;
+    let (r, c) = dims.split_once('x')?;
+    let (r, c) = (r.parse::<usize>().ok()?, c.parse::<usize>().ok()?);
+    let data: Vec<E> = split_comma(vals).iter().map(|t| E::parse(t)).collect::<Option<_>>()?;
+    if data.len() != r * c {
+        return None;
+    }
+    let matrix = || Matrix::from_flat_row_major((r, c), data.clone());
+    let tensor = || Tensor::from([("r", r), ("c", c)], data.clone());
+    let show_m = |m: Matrix<E>| {
+        let v: Vec<String> = m.row_major_iter().map(|x| x.show()).collect();
+        format!("{}x{}:{}", m.rows(), m.columns(), v.join(","))
+    };
+    let show_t = |t: Tensor<E, 2>| {
+        let sh = t.shape();
+        let v: Vec<String> = t.iter().map(|x| x.show()).collect();
+        format!("{}x{}:{}", sh[0].1, sh[1].1, v.join(","))
+    };
+    let res = match routine {
+        "covariance_column_features" => catch_samples(|| show_m(linear_algebra::covariance_column_features::<E>(&matrix()))),
+        "matrix_covariance_column_features" => catch_samples(|| show_m(matrix().covariance_column_features())),
+        "covariance_row_features" => catch_samples(|| show_m(linear_algebra::covariance_row_features::<E>(&matrix()))),
+        "matrix_covariance_row_features" => catch_samples(|| show_m(matrix().covariance_row_features())),
+        "covariance_tensor_columns" => catch_samples(|| show_t(linear_algebra::covariance::<E, _, _>(&tensor(), "c"))),
+        "covariance_tensor_rows" => catch_samples(|| show_t(tensor().covariance("r"))),
+        _ => return None,
+    };
+    Some(match res {
+        Ok(s) => s,
+        Err(e) => e,
+    })
+}
+
+pub fn run_wrapping(toks: &[&str]) -> String {
+    if toks.len() != 3 {
+        return "bad-op".into();
+    }
+    let r = match toks[1] {
+        "wrapping_i8" => run_counting::<std::num::Wrapping<i8>>(toks[0], toks[2]),
+        "wrapping_u8" => run_counting::<std::num::Wrapping<u8>>(toks[0], toks[2]),
+        "wrapping_i16" => run_counting::<std::num::Wrapping<i16>>(toks[0], toks[2]),
+        _ => None,
+    };
+    r.unwrap_or_else(|| "bad-op".into())
+}
+
+/// sample counts around the maximum of the element type
+fn gen_counting(g: &mut Gen) {
+    let routines_cols = ["covariance_column_features", "matrix_covariance_column_features", "covariance_tensor_columns"];
+    let routines_rows = ["covariance_row_features", "matrix_covariance_row_features", "covariance_tensor_rows"];
+    let plans: [(&str, i64, i64, Vec<usize>); 3] = [
+        ("wrapping_i8", -128, 127, vec![1, 2, 126, 127, 128, 129, 255, 256, 257, 300]),
+        ("wrapping_u8", 0, 255, vec![1, 2, 127, 128, 254, 255, 256, 257, 300, 511, 512, 513]),
+        ("wrapping_i16", -32768, 32767, vec![32766, 32767, 32768, 32769]),
+    ];
+    for (elem, lo, hi, counts) in plans.iter() {
+        for &n in counts {
+            let feats = if *elem == "wrapping_i16" { 1 } else { g.rng.range(1, 2) };
+            let vals: Vec<String> = (0..n * feats)
+                .map(|_| {
+                    if g.rng.chance(1, 2) { (g.rng.below(7) as i64 - 3).clamp(*lo, *hi).to_string() } else { (lo + g.rng.below((hi - lo + 1) as usize) as i64).to_string() }
+                })
+                .collect();
+            let representable = (n as i64) <= *hi;
+            // samples along the rows (column features) and along the columns (row features)
+            let which: Vec<&str> = if *elem == "wrapping_i16" { vec![routines_cols[0], routines_rows[1], routines_cols[2]] } else { routines_cols.iter().chain(routines_rows.iter()).cloned().collect() };
+            for routine in which {
+                let (r, c) = if routines_cols.contains(&routine) { (n, feats) } else { (feats, n) };
+                // the same numbers, laid out so that the sample dimension has length n
+                g.op(format!("@ userw {} {} {}x{}:{}", routine, elem, r, c, vals.join(",")));
+                g.count(&format!("count.{}.{}", routine, elem));
+                g.count(if representable { "count.samples-representable" } else { "count.samples-NOT-representable" });
+                g.count(&format!("count.{}.samples={}", elem, n));
+            }
+        }
+    }
+}
+
 pub fn run(toks: &[&str]) -> String {
     if toks.len() < 2 {
         return "bad-op".into();
@@ -343,6 +466,7 @@ fn spd_mat(g: &mut Gen, ty: &str, n: usize, breakit: bool) -> String {
 }
 
 pub fn gen(g: &mut Gen) {
+    gen_counting(g);
     let reps = if g.thorough { 40 } else { 6 };
     for ty in ["Fp", "Rat"] {
         let mut emit = |g: &mut Gen, routine: &str, args: String| {
